@@ -29,8 +29,11 @@ def main():
 
     sys.path.insert(0, HERE)
     os.chdir(HERE)
-    sys.setrecursionlimit(20000)
+    import faulthandler
     import logging
+    import signal
+
+    faulthandler.register(signal.SIGUSR1, all_threads=True)  # kill -USR1 <pid> dumps every thread's stack
 
     logging.disable(logging.CRITICAL)  # claripy logs warnings on the paths we exercise on purpose
 
